@@ -61,7 +61,7 @@ PROPS = {
                 technique="every loop over a set-derived collection is proved against a commutative fold (order independence in real arithmetic); permutation / hash-seed twin on real systems"),
 }
 
-PROPS["C01"] = dict(jobs=lambda j: j.startswith("effects:"), obl=lambda o: "C01" in o["name"] or "effect profile" in o["name"], bounded="c01", level="other", design="4 C01/C15",
+PROPS["C01"] = dict(jobs=lambda j: j.startswith("effects:") or j.startswith("chain:"), obl=lambda o: "C01" in o["name"] or "effect profile" in o["name"] or "optimize_attr_updates_chain" in o["function"], bounded="c01", level="other", design="4 C01/C15",
                     technique="bounded stand-in (whole-history property, no per-function contract states it): live system after every single edit and sampled/all pairs of edits vs a system built from the edited specification, on 7 sharing topologies; local clauses (frames, read order, chain contracts) are proved under C18/C08")
 
 PROPS["C16"] = dict(jobs=None, obl=None, bounded="c16", level="other", design="4 C16",
@@ -78,7 +78,7 @@ PROPS["C05"] = dict(jobs=lambda j: j.startswith("effects:"), obl=lambda o: "C05"
 PROPS["C06"] = dict(jobs=None, obl=None, bounded="c06", level="other", design="4 C05/C06",
                     technique="bounded stand-in: first-hour simulation vs really applying the changes on a twin system; no simulated hour before the date; twins paired both ways; bad dates refused")
 
-PROPS["C08"] = dict(jobs=ANY, obl=lambda o: any(x in o["name"] for x in ("recorded ancestors", "_parent recorded", "completeness")), bounded="c08", level="other", design="4 C08",
+PROPS["C08"] = dict(jobs=ANY, obl=lambda o: any(x in o["name"] for x in ("recorded ancestors", "_parent recorded", "completeness")) or "optimize_attr_updates_chain" in o["function"], bounded="c08", level="other", design="4 C08",
                     technique="P: every operator / helper contract pins the parents recorded on its result and the recorded-ancestor set (what the dependency edges are built from); B: graph consistency (both ends, held values only, acyclic) as built / after edits / after simulations and toggles; completeness by perturbing every quantity input and rebuilding; update order of every input")
 
 PROPS["C11"] = dict(jobs=None, obl=None, bounded="c11", level="other", design="4 C11",
